@@ -110,9 +110,13 @@ def faults(rng, depth=None, sids=None, heal=True):
         s.append(("subsend", sids.next(), "ok", rng.choice(POL)))
         if rng.random() < 0.6:
             s.append(("failfirst", 1))
+    elif rng.random() < 0.06:
+        s.append(("blockfirst", 1))                 # a link congested from the first byte
     s += [("open",), ("adv", rng.choice([0, 1, 8, 17]))]
     if s[-3][0] == "failfirst" and rng.random() < 0.7:
         s.append(("failfirst", 0))
+    if s[-3][0] == "blockfirst":
+        s += [("send", sids.next(), "ok", rng.choice(POL)), ("adv", rng.choice([1, 9, 17])), ("blockfirst", 0), ("block", 0)]
     depth = depth or rng.randint(1, 6)
     for _ in range(depth):
         s += _fault_op(rng, sids)
